@@ -424,3 +424,80 @@ proof!(3, fn c11_channel_state_machine() {
     kani::cover!(op >= 2 && init == (e | HINT), "channel with disconnect hint closed by its owner");
     canaries();
 });
+
+// ==========================================================================================
+// C03 / C08 — the completion queue is large enough: directed worst case
+// ==========================================================================================
+
+/// The adversarial schedule behind the `buffer + max_borrow + 1` sizing of the completion queue:
+/// the sender always reclaims everything before it sends, the receiver slips one release and one
+/// receive in between the sender's reclaim loop and its send, then returns everything it holds.
+/// Every release must succeed and the sender gets every offset back, in release order.
+pub fn release_worst_case<const BUF: usize, const BORROW: usize, const N: usize>() {
+    assert!(N == BUF + BORROW + 1);
+    let p = Params { buffer: BUF, borrow: BORROW, overflow: false, chunks: N, segments: 1, channels: 1 };
+    let sender = builder(p).create_sender().unwrap();
+    let receiver = builder(p).create_receiver().unwrap();
+    let ch = ChannelId::new(0);
+    let mut next = 0usize;
+    let mut held = [0usize; 4];
+    let mut nheld = 0usize;
+    // receiver borrows up to its limit
+    let mut i = 0;
+    while i < BORROW {
+        assert!(sender.reclaim(ch) == Ok(None));
+        assert!(sender.try_send(PointerOffset::new(next * 8), 8, ch) == Ok(None));
+        next += 1;
+        held[nheld] = receiver.receive(ch).unwrap().unwrap().offset();
+        nheld += 1;
+        i += 1;
+    }
+    // the buffer fills up
+    let mut i = 0;
+    while i < BUF {
+        assert!(sender.reclaim(ch) == Ok(None));
+        assert!(sender.try_send(PointerOffset::new(next * 8), 8, ch) == Ok(None));
+        next += 1;
+        i += 1;
+    }
+    // sender: reclaim loop finds nothing ...
+    assert!(sender.reclaim(ch) == Ok(None));
+    // ... receiver: one release, one receive ...
+    let mut released = 0usize;
+    assert!(receiver.release(PointerOffset::new(held[0]), ch).is_ok(), "c03/c08: release failed for lack of space");
+    released += 1;
+    held[0] = receiver.receive(ch).unwrap().unwrap().offset();
+    // ... sender: sends into the freed buffer slot
+    assert!(sender.try_send(PointerOffset::new(next * 8), 8, ch) == Ok(None), "c08: send refused although the buffer has room");
+    next += 1;
+    assert!(next == N);
+    // receiver returns everything it can get hold of
+    let mut i = 0;
+    while i < BORROW {
+        assert!(receiver.release(PointerOffset::new(held[i]), ch).is_ok(), "c03/c08: release failed for lack of space");
+        released += 1;
+        i += 1;
+    }
+    let mut i = 0;
+    while i < BUF {
+        let o = receiver.receive(ch).unwrap().unwrap();
+        assert!(receiver.release(o, ch).is_ok(), "c03/c08: release failed for lack of space although the receiver stayed within its limits");
+        released += 1;
+        i += 1;
+    }
+    assert!(released == N);
+    // nothing lost: the sender reclaims exactly N distinct offsets
+    let mut seen = [false; 5];
+    let mut i = 0;
+    while i < N {
+        let o = sender.reclaim(ch).unwrap().unwrap().offset() / 8;
+        assert!(o < N && !seen[o], "c03: an offset came back twice");
+        seen[o] = true;
+        i += 1;
+    }
+    assert!(sender.reclaim(ch) == Ok(None));
+}
+
+proof!(8, fn conn_release_worst_case_1_1() { release_worst_case::<1, 1, 3>(); canaries(); });
+proof!(8, fn conn_release_worst_case_2_1() { release_worst_case::<2, 1, 4>(); canaries(); });
+proof!(8, fn conn_release_worst_case_1_2() { release_worst_case::<1, 2, 4>(); canaries(); });
